@@ -143,6 +143,20 @@ def build(inst):
     return ctx, names, ranges, pts, f, care, desc
 
 
+def _warm_up(inst, ctx, f, care, cov):
+    """History for instances marked `warm`: the same context has minimized another predicate before (its auxiliary
+    parameters are declared, caches are filled); the answer for (f, care) must not depend on that."""
+    if not inst.get('warm'):
+        return
+    g = care & ~ f
+    if g == ctx.false or care == ctx.false:
+        return
+    try:
+        cov.minimize(g, care, ctx)
+    except Exception:  # noqa: the warm-up predicate is not the subject of the obligation
+        pass
+
+
 def check_instances(instances):
     import z3
     import omega.symbolic.cover as cov
@@ -158,6 +172,7 @@ def check_instances(instances):
         F = coverlib.truth_table(ctx, f, names, pts)
         CARE = coverlib.truth_table(ctx, care, names, pts)
         t1 = time.time()
+        _warm_up(inst, ctx, f, care, cov)
         try:
             cover = cov.minimize(f, care, ctx)
             prm = lat.setup_aux_vars(f, care, ctx)
@@ -222,6 +237,7 @@ def replay(payload):
     ctx, names, ranges, pts, f, care, desc = build(c['inst'])
     F = coverlib.truth_table(ctx, f, names, pts)
     CARE = coverlib.truth_table(ctx, care, names, pts)
+    _warm_up(c['inst'], ctx, f, care, cov)
     try:
         cover = cov.minimize(f, care, ctx)
     except Exception as e:  # noqa
@@ -278,6 +294,9 @@ def instances_for(tier, seed):
                 bits = 16
                 m = rnd.getrandbits(bits)
                 insts.append(instance('mask', d, (m or 1, (m | rnd.getrandbits(bits)) if rnd.random() < 0.5 else None)))
+    for i, inst in enumerate(insts):
+        if i % 4 == 3:
+            inst['warm'] = True
     return insts
 
 
